@@ -1,4 +1,5 @@
 import WfModel.Archive
+import WfModel.ArchiveClean
 import Driver.Util
 open Archive Drv
 
@@ -11,6 +12,9 @@ ideal AEAD (`idealAead`, length-exact) and the token codec (`tokenCodec`).
 * `dec|<pw>|<blob>`                    → `ok <m>` | `err <kind>`
 * `write|<pw?>|<rnd>|<ts>|<ns>|<gens?>|<secrets>|<deps>` → members
 * `read|<pw?>|<members>`               → `ok v=.. ts=.. ns=.. n=.. enc=.. entries=..` | `err <kind>`
+* `clean|crd|<top>|<meta?>|<anns?>` / `clean|secret|…` → `<top>|<meta?>|<anns?>` (`clean_crd_metadata` /
+  `clean_secret_metadata`; `top`, `meta`, `anns` = `key:tok;…`, keys as code points, `meta` = the metadata keys
+  other than the annotations key, `-` = key absent)
 
 Lists of naturals / code points are comma separated; optional values are `-` (None) or `=<value>`;
 `rnd` = `salt:nonce;…`; `gens` = `=name:int;…`; `secrets` = `name:tok;…`; `deps` = `<name?>:tok;…`;
@@ -57,6 +61,14 @@ def showContents (r : Contents Nat) : String :=
     showNats r.manifest.namespace ++ " n=" ++ toString r.manifest.count ++ " enc=" ++
     (if r.manifest.encrypted then "1" else "0") ++ " entries=" ++ ";".intercalate (r.entries.map showEntry)
 
+def showKvs (l : List (Name × Nat)) : String := ";".intercalate (l.map fun kv => showChars kv.1 ++ ":" ++ toString kv.2)
+
+def showDoc (d : ArchiveClean.Doc Nat) : String :=
+  showKvs d.top ++ "|" ++
+    (match d.meta with
+     | none => "-|-"
+     | some m => "=" ++ showKvs m.fields ++ "|" ++ (match m.anns with | none => "-" | some a => "=" ++ showKvs a))
+
 def rndOf (l : List (Bytes × Bytes)) : Nat → Bytes × Bytes := fun k => l.getD k ([], [])
 
 def step (_ : Unit) (line : String) : Unit × String :=
@@ -99,6 +111,15 @@ def step (_ : Unit) (line : String) : Unit × String :=
       | .ok r => ((), showContents r)
       | .error e => ((), "err " ++ showErr e)
     | _, _ => ((), "bad-op")
+  | ["clean", which, top, mta, anns] =>
+    let kvs? := parseList? ";" (parsePair? ":" parseName? String.toNat?)
+    match kvs? top, parseOpt? kvs? mta, parseOpt? kvs? anns with
+    | some top, some mta, some anns =>
+      let d : ArchiveClean.Doc Nat := { top := top, «meta» := mta.map fun f => { fields := f, anns := anns } }
+      if which == "crd" then ((), showDoc (ArchiveClean.cleanCrd d))
+      else if which == "secret" then ((), showDoc (ArchiveClean.cleanSecret d))
+      else ((), "bad-op")
+    | _, _, _ => ((), "bad-op")
   | _ => ((), "bad-op")
 
 end Drv.Archive
